@@ -126,6 +126,7 @@ class Fault:
 
 class _State:
     fault: Fault | None = None
+    root: str | None = None
     crash_hook = None  # called instead of os._exit in tests
 
 
